@@ -29,8 +29,25 @@ def execute(c):
     t0, l0 = tmpl.copy(), labels.copy()
     wx = core.Watch(x)
     nout = len(np.unique(labels))
+    c["exc"] = ""
+    try:
+        out = _call(c, xr, ops, x, tmpl, labels, nout)
+    except Exception as ex:        # the error path is an event too
+        c["exc"] = type(ex).__name__
+        out = np.zeros(nout, dtype="int16")
+    c["out"] = [int(v) for v in np.asarray(out).tolist()]
+    c["tmpl_after"] = [int(v) for v in tmpl.tolist()]
+    c["labels_after"] = [int(v) for v in labels.tolist()]
+    if not (np.array_equal(t0, tmpl) and np.array_equal(l0, labels)):
+        c["labels_after"] = c["labels_after"] + [-1]
+    c["inmod"] = wx.changed()
+    c["x"] = [str(int(v)) for v in c["xi"]]
+    return c
+
+
+def _call(c, xr, ops, x, tmpl, labels, nout):
     if c["api"] == "kernel":
-        out = ops.tinterpolate(x, tmpl, labels, np.zeros(nout, dtype="u1"))
+        return ops.tinterpolate(x, tmpl, labels, np.zeros(nout, dtype="u1"))
     else:
         dims = c.get("dims", ["time", "y", "x"])
         shape = [1, 1, 1]
@@ -42,14 +59,7 @@ def execute(c):
         out = np.asarray(r.transpose(..., "newtime")).reshape(-1)
         if str(r.dtype) != "int16":
             out = np.array([-31000] * len(out))
-    c["out"] = [int(v) for v in np.asarray(out).tolist()]
-    c["tmpl_after"] = [int(v) for v in tmpl.tolist()]
-    c["labels_after"] = [int(v) for v in labels.tolist()]
-    if not (np.array_equal(t0, tmpl) and np.array_equal(l0, labels)):
-        c["labels_after"] = c["labels_after"] + [-1]
-    c["inmod"] = wx.changed()
-    c["x"] = [str(int(v)) for v in c["xi"]]
-    return c
+        return out
 
 
 def calendar(rng, ndays, kind):
